@@ -36,7 +36,7 @@ CHECKS = {
  "C16": ("exploration", "bounded-exhaustive enumeration of archive round trips (network x format x k x label->set map x formula list)",
    "Every combination of a declared finite family (including histories of the target path: fresh, an earlier archive, a non-zip file, an empty file) is written with build_result_archive, unzipped independently, the archived model re-parsed, the bundle reloaded and every set compared point-wise and as BDD; reloaded sets are used as wild-card/domain context; analysis archives: entry i <-> line i.", "§3 C16"),
  "C17": ("exploration", "bounded-exhaustive enumeration of CLI configurations executed on the binary built from the working tree, compared with the library",
-   "All combinations of model format x formula-file layout x print option x -o x -e x formula lists on small networks: stdout blocks, counts, exhaustive listings and archived BDDs are compared with the library's results; mismatched context archives and 18 failure configurations must give a message and no crash.", "§3 C17"),
+   "All combinations of model format x formula-file layout x print option x -o x -e x formula lists on small networks: stdout blocks, counts, exhaustive listings and archived BDDs are compared with the library's results; mismatched context archives and 20 failure configurations must give a message and no crash.", "§3 C17"),
  "C18": ("model_checking", "bounded-exhaustive differential: unsafe_ex vs standard evaluation on the loop-insensitive fragment / steady-state-free networks",
    "All formulae of the loop-insensitive fragment up to a node bound on every core network, and all formulae over all operators on the networks whose independently computed transition systems have no steady state in any colour; raw results must be identical; plus two-network histories (ordered pairs of networks with the same symbolic encoding evaluated one after the other on one fresh OS thread).", "§3 C18"),
  "C20": ("model_checking", "exhaustive enumeration of (formula, colour) pairs: parametrised result sliced at each colour vs evaluation on the instantiated network",
